@@ -34,6 +34,9 @@ def one(d):
     bases = ["HEAD"]
     if m.get("base") and m["base"] != head:
         bases.append(m["base"])
+    # a later fix: commit may have rewritten lines the patch touches: fall back to the parent of each fix, newest first
+    kf = json.load(open(os.path.join(VERIF, "known_findings.json")))["findings"]
+    bases += [f"{f['commit']}~1" for f in reversed(kf) if f.get("status") == "fixed" and f.get("commit")]
     for base in bases:
         wt = f"/tmp/sr-{sid}-{os.getpid()}"
         rc, o = sh(f"git -C /repo worktree add --detach {wt} {base} -q")
@@ -42,6 +45,7 @@ def one(d):
         try:
             rc, o = sh(f"git -C {wt} apply {patch}")
             if rc != 0:
+                sh(f"git -C /repo worktree remove --force {wt}")
                 continue
             rcc, oc = sh(f"{PY} -u {VERIF}/run.py {prop} --tier quick --no-evidence --jobs 4", env={"VERIF_REPO": wt})
             first = next((l.strip() for l in oc.splitlines() if "violation class=" in l), "")
